@@ -262,7 +262,7 @@ def _const_alternatives(e):
 
 def summarize_tuple_returns(fi):
     """For a scanner that returns `(offset, (a, b, ...))` or None: alternatives per tuple slot."""
-    slots = None
+    shapes = {}
     defs = {}
     for n in walk_function(fi.node):
         if isinstance(n, ast.Assign) and len(n.targets) == 1 and isinstance(n.targets[0], ast.Name):
@@ -271,10 +271,8 @@ def summarize_tuple_returns(fi):
         if isinstance(n, ast.Return) and isinstance(n.value, ast.Tuple) and len(n.value.elts) == 2 \
                 and isinstance(n.value.elts[1], ast.Tuple):
             elts = n.value.elts[1].elts
-            if slots is None:
-                slots = [[] for _ in elts]
-            if len(slots) != len(elts):
-                raise AnalysisError('%s returns match tuples of different arity' % fi.short)
+            # one set of alternatives per arity: a return site with a different number of fields is its own shape
+            slots = shapes.setdefault(len(elts), [[] for _ in elts])
             for i, e in enumerate(elts):
                 alts = []
                 if isinstance(e, ast.Name) and e.id in defs:
@@ -285,7 +283,7 @@ def summarize_tuple_returns(fi):
                 for a in alts:
                     if a not in slots[i]:
                         slots[i].append(a)
-    return slots
+    return [shapes[k] for k in sorted(shapes, reverse=True)]
 
 
 # helpers that scan a string character by character and return a string derived from it
@@ -446,11 +444,12 @@ def _install_common_hooks(model, it, facts, log):
                 ('interrupts', _cursor_of(args), sum(1 for fr in interp.call_stack if fr.func is not None and fr.func.name == 'read')))
     if model.has_func('block_token.Footnote.match_reference'):
         mr = model.func('block_token.Footnote.match_reference')
-        slots = summarize_tuple_returns(mr)
-        if slots:
-            def h_match_reference(interp, fi, args, kwargs, slots=slots):
+        shapes = summarize_tuple_returns(mr)
+        if shapes:
+            def h_match_reference(interp, fi, args, kwargs, shapes=shapes):
                 if not interp.oracle.decide(None, 'match_reference-found'):
                     return None
+                slots = shapes[0] if len(shapes) == 1 else Choice.pick(interp, ('mr-shape', len(interp.oracle.trace)), shapes)
                 vals = []
                 for i, alts in enumerate(slots):
                     v = Choice.pick(interp, ('mr', len(interp.oracle.trace), i), alts)
